@@ -189,7 +189,7 @@ def _clock_sources(ctx):
                           'utcnow() so that an override applies)' % (
                               name, fn, sorted(allowed)),
                           where='%s:%s' % (mod.relpath, fn))
-    rep.count('wall-clock reads in timeutils', n, floor=3)
+    rep.count('wall-clock reads in timeutils', n, floor=1)
 
 
 THOROUGH = [False]
